@@ -70,6 +70,8 @@ var failures = []struct {
 	{"operator-const-operand", "q := kk / zero", "const kk = 10; zero := 0"},
 	{"index-folded-operand", "q := [1, 2][2 * 1.5 + len(\"ab\")]", ""},
 	{"builtin-folded-argument", "q := int([1 + 2, !true])", ""},
+	{"operator-negative-literal-operand", "q := -1 / zero", "zero := 0"},
+	{"operator-folded-unary-operand", "q := !true % zero + ^5", "zero := 0"},
 }
 
 func callStmt(form int, callee string) string {
@@ -85,12 +87,15 @@ func callStmt(form int, callee string) string {
 	case 4:
 		// a folded constant directly after / before the call
 		return "r := " + callee + "() + len(\"ab\") * 2"
-	default:
+	case 5:
 		return "r := [len(\"ab\") * 2, " + callee + "()]"
+	default:
+		// a negative literal (folded unary minus) is the first thing compiled after the call
+		return "r := [" + callee + "(), -1]"
 	}
 }
 
-const nForms = 6
+const nForms = 7
 
 type pos struct {
 	file string
@@ -275,7 +280,7 @@ func run16(c *fw.Ctx) {
 	if c.Thorough() {
 		maxD = 6
 	}
-	c.Family("uniform-forms", fmt.Sprintf("d <= %d x %d failures x 6 forms x 4 layouts x 3 positions x 4 styles", maxD, len(failures)))
+	c.Family("uniform-forms", fmt.Sprintf("d <= %d x %d failures x 7 forms x 4 layouts x 3 positions x 4 styles", maxD, len(failures)))
 	for d := 0; d <= maxD; d++ {
 		for fi := range failures {
 			for form := 0; form < nForms; form++ {
